@@ -43,9 +43,13 @@ class Gen:
             return self.rng.choice(names)
         if r < 0.85:
             return self.const()
-        if r < 0.93:
+        if r < 0.91:
             self.features.add("module_constant")
             return "C1"
+        if r < 0.93:
+            # float constants reached through dotted module paths of different depth that end in a module of the same name
+            self.features.add("nested_module_constant")
+            return self.rng.choice(["kinlib.thermo.constants.R", "kinlib.constants.R", "kinlib.thermo.constants.T0", "kinlib.constants.T0"])
         self.features.add("math_constant")
         return self.rng.choice(["math.pi", "math.e"])
 
@@ -282,7 +286,7 @@ class Gen:
 
     def module(self, nfun: int = 6) -> tuple[str, list[dict]]:
         rng = self.rng
-        head = f'"""generated"""\nimport math\nimport {self.helper}\nfrom {self.helper} import h2\n\nC1 = 1.25\ny = 0.75  # shadowed by the argument y wherever a function has one\n\n\ndef h1(a):\n    return a * 3.0 + 1.0\n\n\n'
+        head = f'"""generated"""\nimport math\nimport kinlib.constants\nimport kinlib.thermo.constants\nimport {self.helper}\nfrom {self.helper} import h2\n\nC1 = 1.25\ny = 0.75  # shadowed by the argument y wherever a function has one\n\n\ndef h1(a):\n    return a * 3.0 + 1.0\n\n\n'
         src = [head]
         meta: list[dict] = []
         fns: list[tuple[str, int]] = [(f"{self.helper}.h1", 1), ("h2", 2), (f"{self.helper}.h3", 2), ("h1", 1)]
